@@ -183,9 +183,9 @@ theorem names_set (syms : List Sym) (id : Nat) (sy : Sym) (t : Ty) (h : syms[id]
     | zero => simp at h; subst h; simp [List.findIdx?_cons]
     | succ k => simp at h; simp [List.findIdx?_cons, ih k h]
 
-theorem eval_var (funcs : List Func) (depth fuel : Nat) (n : String) (st : St) :
+theorem eval_var (funcs : List Func) (depth fuel : Nat) (n : String) (st : St) (hit : st.iters = []) :
     eval funcs depth (fuel + 1) (.var n) st = (.ok (lookupVar st.vars n), st) := by
-  simp [eval, bind, getSt, pure]
+  simp [eval, bind, getSt, readVar, hit, liftM, monadLift, MonadLift.monadLift]
 
 theorem addSyms_fields (news : List (String × Ty)) : ∀ (x : Ctx),
     (addSyms x news).live = x.live ∧ (addSyms x news).gen = x.gen ∧ (addSyms x news).funcs = x.funcs ∧
